@@ -17,7 +17,21 @@ def main(tier):
         for st in ("raw", "enc", "comp", "comp+enc"):
             jobs.append(dict(par=dict(stack=st, seed=seed() + 41 + si, level=5, entropy="low" if si % 2 else "high"),
                              sid=si * 10 + ("raw", "enc", "comp", "comp+enc").index(st), **s))
-    traces = run_repair_sweeps(jobs, "s20", "c02")
+    # production constants: windows of +-12 (quick) / +-20 (thorough) bytes around every structural boundary that the
+    # real layout of the archive has (header end, 128 KiB+16 chunk edges, tags, 4 MiB block edges, typed blocks, footers)
+    resp, scensp = scenarios_from_writer("Writer.prod.cfg", "c02-prod")
+    big = [s for s in scensp if len(s["files"]) == 2 and sum(sum(p[1] for p in f["content"]) for f in s["files"]) >= 4300000
+           and any(len(i["offs"]) >= 2 for i in s["hid"]["info"])][:1]
+    mid = [s for s in scensp if len(s["files"]) == 2 and 250000 <= sum(sum(p[1] for p in f["content"]) for f in s["files"]) <= 500000][:1]
+    w = 12 if tier == "quick" else 20
+    for s in mid:
+        for st in ("raw", "enc"):
+            jobs.append(dict(par=dict(stack=st, seed=seed() + 55, level=1, profile="prod"), sid=9000 + len(jobs), cuts="windows", window=w, **s))
+    for s in big:
+        for st in (("comp+enc",) if tier == "quick" else ("comp", "comp+enc")):
+            jobs.append(dict(par=dict(stack=st, seed=seed() + 56, level=1, entropy="low", profile="prod"), sid=9000 + len(jobs),
+                             cuts="windows", window=w, **s))
+    traces = run_repair_sweeps(jobs, "s20", "c02", shard=4)
     validate_repair_traces(v, "C02", traces, ev, CLAUSES)
     cov = dict(states=res.distinct + ev.get("trace_states", 0), transitions=res.generated,
                traces_validated_against_impl=ev.get("traces", 0), repairs_validated=ev.get("repairs", 0),
